@@ -49,6 +49,17 @@ theorem foldl_min_minList (l : List Rat) (a : Rat) :
   | nil => rfl
   | cons x xs => simp only [minList, List.foldl_cons]; exact foldl_min_assoc xs a x
 
+/-- a loop that appends the values that are not `None` is `filterMap` (whatever way the loop body is
+    written, as long as it appends `g x` when there is one) -/
+theorem foldl_filterMap {α} (F : List Rat → α → List Rat) (g : α → Option Rat)
+    (h : ∀ acc x, F acc x = acc ++ (g x).toList) (l : List α) (init : List Rat) :
+    List.foldl F init l = init ++ l.filterMap g := by
+  induction l generalizing init with
+  | nil => simp
+  | cons a l ih =>
+    simp only [List.foldl_cons, ih, h, List.filterMap_cons]
+    cases g a <;> simp
+
 theorem filterMap_id_map {α β} (g : α → Option β) (l : List α) :
     (l.map g).filterMap (fun p => p) = l.filterMap g := by
   induction l with
@@ -86,8 +97,11 @@ theorem eff_eq (s : State) (hp : PlainHoldNothing s) : ∀ f,
     constructor
     · intro t _
       have hl : ∀ l, Gen.lockEffectivePriority s f l = effL s.graph f l := ih.2
-      simp only [Gen.taskEffectivePriority, Gen.taskPriority, holdingLocks, minOpt, priorityValue, hl,
-        filterMap_id_map, effT_succ, foldl_min_minList]
+      simp only [Gen.taskEffectivePriority]
+      try rw [foldl_filterMap _ (fun l => Gen.lockEffectivePriority s f l)
+        (by intro acc x; cases hx : Gen.lockEffectivePriority s f x <;> simp [hx])]
+      simp only [Gen.taskPriority, holdingLocks, minOpt, priorityValue, hl,
+        filterMap_id_map, effT_succ, foldl_min_minList, List.nil_append]
       simp only [State.graph]
       split <;> simp_all <;> grind
     · intro k
@@ -243,8 +257,8 @@ theorem foldl_any (f : Bool → Waiter → Bool) (p : Waiter → Bool) (h : ∀ 
 /-- `PriorityLock._wake_up_first` (the Python source) is the model's `wakeUpFirst`, in every state -/
 theorem wakeUpFirst_eq (s : State) (k : Nat) : Gen.lockWakeUpFirst s k = .ok (s.wakeUpFirst k) := by
   unfold Gen.lockWakeUpFirst State.wakeUpFirst
-  rw [foldl_any _ (fun x => x.fut.done) (by intro a x; cases a <;> cases h : x.fut.done <;> simp [futDone, h])]
-  simp only [waitersOf, pqPeek, futSetResult, Bool.false_or]
+  try rw [foldl_any _ (fun x => x.fut.done) (by intro a x; cases a <;> cases h : x.fut.done <;> simp [futDone, h])]
+  simp only [waitersOf, pqPeek, futSetResult, Bool.false_or, List.any_map, Function.comp_def, futDone]
   cases hw : (s.locks k).waiters with
   | nil => simp [headW]
   | cons w ws =>
@@ -435,27 +449,6 @@ theorem acquireEntry_slow (s : State) (hp : PlainHoldNothing s) (i k : Nat) (hc 
   have tailN : ∀ o, isPrio s o = false → walk (appended s i k) (some o) = appended s i k := by
     intro o hpo
     exact propT_plain (appended s i k) (appended s i k).fuel o (by rw [isPrio_appended]; exact hpo)
-  have finish : ∀ b : Bool,
-      (match (match lockOwning (appended s i k) k with | none => none | some v => some v) with
-       | none => (Except.ok (appended s i k, Gen.LockAcquireOut.suspended k b k i i i) :
-           Except (LockErr × State) (State × Gen.LockAcquireOut))
-       | some o =>
-         if isPrio (appended s i k) o = true then
-           match Gen.taskPropagatePriority (appended s i k).fuel (appended s i k) o k with
-           | .error e => .error e
-           | .ok s' => .ok (s', Gen.LockAcquireOut.suspended k b k i i i)
-         else .ok (appended s i k, Gen.LockAcquireOut.suspended k b k i i i)) =
-      .ok (walk (appended s i k) (s.locks k).owner, Gen.LockAcquireOut.suspended k b k i i i) := by
-    intro b
-    rw [lockOwning_appended]
-    cases ho : (s.locks k).owner with
-    | none => rfl
-    | some o =>
-      simp only [isPrio_appended]
-      by_cases hpo : isPrio s o = true
-      · simp only [hpo, if_true, tailP o hpo]
-      · have hpo' : isPrio s o = false := by simpa using hpo
-        simp only [hpo', Bool.false_eq_true, if_false, tailN o hpo']
   by_cases hpi : isPrio s i = true
   · have hset := setWaitingOn_ok s i k hwo
     have happ := appended_prio s i k hpi
@@ -469,7 +462,20 @@ theorem acquireEntry_slow (s : State) (hp : PlainHoldNothing s) (i k : Nat) (hc 
       (try have hnw := newWaiters_noop s k (List.isEmpty_iff.mp hw))
       simp only [currentTask, hc, lockLocked, hl, waitersOf, hw, if_true,
         Bool.false_eq_true, if_false, hpi, he', hset, happ, *]
-    all_goals exact finish true
+    all_goals
+      simp only [lockOwning_appended]
+      cases ho : (s.locks k).owner with
+      | none => simp only [walk]
+      | some o =>
+        simp only [isPrio_appended, walk]
+        by_cases hpo : isPrio s o = true
+        · have h1 := tailP o hpo
+          simp only [walk] at h1
+          simp only [hpo, if_true, h1]
+        · have hpo' : isPrio s o = false := by simpa using hpo
+          have h2 := tailN o hpo'
+          simp only [walk] at h2
+          simp only [hpo', Bool.false_eq_true, if_false, h2]
   · have hpi' : isPrio s i = false := by simpa using hpi
     have happ := appended_plain s i k hpi' hwo
     have he' : (0 : Rat) = s.eff i := by simpa [hpi'] using he
@@ -482,7 +488,20 @@ theorem acquireEntry_slow (s : State) (hp : PlainHoldNothing s) (i k : Nat) (hc 
       (try have hnw := newWaiters_noop s k (List.isEmpty_iff.mp hw))
       simp only [currentTask, hc, lockLocked, hl, waitersOf, hw, if_true,
         Bool.false_eq_true, if_false, hpi', he', happ, *]
-    all_goals exact finish false
+    all_goals
+      simp only [lockOwning_appended]
+      cases ho : (s.locks k).owner with
+      | none => simp only [walk]
+      | some o =>
+        simp only [isPrio_appended, walk]
+        by_cases hpo : isPrio s o = true
+        · have h1 := tailP o hpo
+          simp only [walk] at h1
+          simp only [hpo, if_true, h1]
+        · have hpo' : isPrio s o = false := by simpa using hpo
+          have h2 := tailN o hpo'
+          simp only [walk] at h2
+          simp only [hpo', Bool.false_eq_true, if_false, h2]
 
 end Asynkit.GenEqLock
 
